@@ -565,6 +565,62 @@ def rule_i(model, rep):
         rep.undecided(R, "<instance-count>", f"only {n} end-anchored regex uses found, expected at least 25")
 
 
+def rule_j(model, rep):
+    """a setting parsed from the string and then used as a key into a class-level table (fshp's variant -> digest name / size) has to be
+    checked for membership in that very table when it is normalised; a range test that is wider than the key set turns an altered
+    number into a KeyError out of verify()"""
+    R = "C08.j-table-key-validated"
+    n = 0
+    for un, unit in model.units.items():
+        if not un.startswith(("passlib.handlers", "libpass.hashers")):
+            continue
+        for cn, cd in unit.classes.items():
+            for fn in [x for x in cd.body if isinstance(x, ast.FunctionDef)]:
+                for sub in walk_no_nested(fn):
+                    if not (isinstance(sub, ast.Subscript) and isinstance(sub.value, ast.Attribute) and isinstance(sub.value.value, ast.Name) and sub.value.value.id in ("self", "cls")
+                            and isinstance(sub.slice, ast.Attribute) and isinstance(sub.slice.value, ast.Name) and sub.slice.value.id == "self" and isinstance(sub.ctx, ast.Load)):
+                        continue
+                    table, attr = sub.value.attr, sub.slice.attr
+                    tv = model.class_const((un, cn), table)
+                    if not isinstance(tv, dict):
+                        continue
+                    n += 1
+                    s = site(un, f"{cn}.{fn.name}") + f" {table}[self.{attr}]"
+                    # in try/except KeyError?
+                    guarded = False
+                    cur = sub
+                    while cur is not None and cur is not fn:
+                        par = unit.parent(cur)
+                        if isinstance(par, ast.Try) and cur in par.body and any(h.type is not None and "KeyError" in ast.unparse(h.type) for h in par.handlers):
+                            guarded = True
+                        cur = par
+                    # normaliser of the attribute: self.<attr> = self._norm_x(...) somewhere in the class
+                    norms = set()
+                    for f2 in [x for x in cd.body if isinstance(x, ast.FunctionDef)]:
+                        for a in walk_no_nested(f2):
+                            if isinstance(a, ast.Assign) and any(ast.unparse(t) == f"self.{attr}" for t in a.targets):
+                                vals = [a.value]
+                                if isinstance(a.value, ast.Name):   # two steps: x = self._norm_x(x) ... self.x = x
+                                    vals = [b.value for b in walk_no_nested(f2) if isinstance(b, ast.Assign) and any(isinstance(t, ast.Name) and t.id == a.value.id for t in b.targets)]
+                                for v in vals:
+                                    if isinstance(v, ast.Call) and isinstance(v.func, ast.Attribute) and isinstance(v.func.value, ast.Name) and v.func.value.id in ("self", "cls"):
+                                        norms.add(v.func.attr)
+                    member = False
+                    for nm in norms:
+                        nfn = model.method((un, cn), nm, required=False)[1]
+                        if nfn is None:
+                            continue
+                        for t in [x for x in walk_no_nested(nfn) if isinstance(x, ast.If) and any(isinstance(b, ast.Raise) for b in x.body)]:
+                            c = t.test
+                            if isinstance(c, ast.Compare) and len(c.ops) == 1 and isinstance(c.ops[0], ast.NotIn) and ast.unparse(c.comparators[0]) in (f"cls.{table}", f"self.{table}"):
+                                member = True
+                    rep.check(guarded or member, R, s, f"normalisers {sorted(norms)}: no `not in cls.{table}` test raising, lookup not inside try/except KeyError",
+                              f"`self.{attr}` is validated by membership in `{table}` (the table it later indexes) or the lookup handles KeyError",
+                              witness="fshp.verify(pw, '{FSHP4|16|1}...') raises KeyError: 4 instead of ValueError (variant 4 passes a range test but is not a key of the table)")
+    if n < 2:
+        rep.undecided(R, "<instance-count>", f"only {n} table lookups keyed by a parsed setting found, expected at least 2")
+
+
 def rule_d(model, rep):
     R = "C08.d-whole-digest"
     # settings parsed from a *full* hash are validated strictly; only config strings (no digest) may be clipped / truncated
@@ -587,6 +643,33 @@ def rule_d(model, rep):
                                       "an altered hash string is accepted instead of refused")
     if ns < 4:
         rep.undecided(RS, "<instance-count>", f"only {ns} parse-time normaliser calls found, expected at least 4")
+    # ... and that test only means something once the digest is in place: a constructor calling a `_parse_*` hook some override of which
+    # reads `self.checksum` must have run the rest of the __init__ chain (GenericHandler.__init__ stores the digest) before the call
+    readers = {}
+    for un, unit in model.units.items():
+        if not un.startswith("passlib."):
+            continue
+        for q, f0 in unit.functions():
+            short = q.split(".")[-1]
+            if short.startswith("_parse_") and any(isinstance(x, ast.Attribute) and ast.unparse(x) == "self.checksum" for x in walk_no_nested(f0)):
+                readers.setdefault(short, []).append(site(un, q))
+    ni = 0
+    for un, unit in model.units.items():
+        if not un.startswith("passlib."):
+            continue
+        for q, f0 in unit.functions():
+            if q.split(".")[-1] != "__init__":
+                continue
+            for i, st in enumerate(f0.body):
+                called = {c.func.attr for c in ast.walk(st) if isinstance(c, ast.Call) and isinstance(c.func, ast.Attribute) and ast.unparse(c.func.value) == "self" and c.func.attr in readers}
+                for hook in sorted(called):
+                    ni += 1
+                    i_super = next((j for j, s2 in enumerate(f0.body) if isinstance(s2, ast.Expr) and isinstance(s2.value, ast.Call) and ast.unparse(s2.value.func) in ("super().__init__", f"super({q.split('.')[0]}, self).__init__")), None)
+                    rep.check(i_super is not None and i_super < i, RS, site(un, q) + f" {hook}", f"super().__init__ at statement {i_super}, self.{hook}() at statement {i}; overrides reading self.checksum: {readers[hook]}",
+                              "the digest is stored (super().__init__) before a parse hook that asks `self.checksum is None` runs",
+                              witness="sha256_crypt.verify(pw, h with 'rounds=1000' altered to 'rounds=999') is True: the hook sees no digest yet, treats the full hash as a config string and clips the cost instead of refusing it")
+    if ni < 2:
+        rep.undecided(RS, "<init-order>", f"only {ni} constructor calls of digest-sensitive parse hooks found, expected at least 2")
     # _norm_checksum: size and charset enforced
     fn = model.func(UH, "GenericHandler._norm_checksum")
     txt = qtext(fn)
@@ -642,6 +725,7 @@ def run(model, rep):
     rule_g(model, rep)
     rule_h(model, rep)
     rule_i(model, rep)
+    rule_j(model, rep)
     from . import shared
     shared.falsy_zero_lint(model, rep, "C08.e-zero-is-a-value", lambda un: un.startswith(("passlib.handlers", "passlib.utils.handlers")),
                            lambda un, q: q.split(".")[-1] in ("__init__", "from_string", "parse") or q.split(".")[-1].startswith(("_parse", "_norm")),
